@@ -219,8 +219,12 @@ type c01Wrapper struct {
 
 var c01Wrappers = []c01Wrapper{
 	{"plain", func(in string, f map[string]string) string { return in }},
-	{"if", func(in string, f map[string]string) string { return "{% if z_true %}" + in + "{% else %}" + in + "{% endif %}" }},
-	{"for", func(in string, f map[string]string) string { return "{% for x in z_ints %}" + in + "{% empty %}" + in + "{% endfor %}" }},
+	{"if", func(in string, f map[string]string) string {
+		return "{% if z_true %}" + in + "{% else %}" + in + "{% endif %}"
+	}},
+	{"for", func(in string, f map[string]string) string {
+		return "{% for x in z_ints %}" + in + "{% empty %}" + in + "{% endfor %}"
+	}},
 	{"with", func(in string, f map[string]string) string { return "{% with w=1 %}" + in + "{% endwith %}" }},
 	{"macro", func(in string, f map[string]string) string {
 		return "{% macro wm(p) %}" + in + "{% endmacro %}{{ wm(1) }}{{ wm() }}"
